@@ -1,3 +1,3 @@
-From MptV Require Import Base.Mem Cobs.CobsModel Cobs.CobsRun.
+From MptV Require Import Base.Mem Cobs.CobsModel Cobs.CobsRun Cobs.EncDelete.
 Require Import ExtrOcamlBasic.
-Extraction "cobs_model.ml" crun csrun cinit sinit v_cobs v_cobs_r v_zpe v_zpe_r sdec FCobs FText.
+Extraction "cobs_model.ml" crun csrun cinit sinit v_cobs v_cobs_r v_zpe v_zpe_r sdec FCobs FText cstep cspec_step enc_delete_current.
